@@ -120,6 +120,20 @@ class Reference:
             self.admitted.setdefault((scope, cmd), []).append(now)
 
 
+class ScopeByScope(Reference):
+    """the mechanism behind the recorded finding: a scope counts a message as soon as ITS
+    rules pass, even when a later scope then refuses it"""
+
+    def decide(self, addr, cmd, now):
+        for scope, rules in self.applicable(addr, cmd):
+            ts = self.admitted.get((scope, cmd), [])
+            for interval, n in rules:
+                if n >= 0 and sum(1 for t in ts if 0 <= now - t < interval) >= n:
+                    return True
+            self.admitted.setdefault((scope, cmd), []).append(now)
+        return False
+
+
 def ruleset_key(i):
     return "rs%d" % i
 
@@ -129,6 +143,7 @@ def judge_sequence(rsi, seq, counters, viols, nontrivial, distinct_prefix=True):
     clock = Clock()
     lim = make_limiter(rs, clock)
     refm = Reference(rs)
+    alt = ScopeByScope(rs)
     refused = False
     boundary = False
     for step, (dt, addr, cmd) in enumerate(seq):
@@ -136,6 +151,7 @@ def judge_sequence(rsi, seq, counters, viols, nontrivial, distinct_prefix=True):
         now = clock.t
         full = refm.full(addr, cmd, now)
         got = bool(lim.is_limited(addr, [cmd]))
+        alt_says = alt.decide(addr, cmd, now)
         counters["decisions"] = counters.get("decisions", 0) + 1
         specific = addr in refm.rules and cmd in refm.rules[addr]
         for scope, rules in refm.applicable(addr, cmd):
@@ -155,7 +171,7 @@ def judge_sequence(rsi, seq, counters, viols, nontrivial, distinct_prefix=True):
                     probe.admitted = refm.admitted
                     generic_full = bool(probe.full(addr, cmd, now))
                 key = "over-block/" + ("exempt-n=-1" if exempt and specific else ("generic-rule-despite-specific/%s" % ("ipv6" if ":" in addr else "ipv4") if specific and generic_full
-                                       else "no-rule-has-n-admitted"))
+                                       else ("refused-messages-counted-by-earlier-scope" if alt_says else "no-rule-has-n-admitted")))
                 viols.append({"key": key, "msg": "rules %s: %s from %s at t=%.1f refused although no applicable rule has passed n messages in its window (admitted history %s)"
                               % (json.dumps(rs), cmd, addr, now - 1000, {str(k): [round(t - 1000, 2) for t in v] for k, v in refm.admitted.items()}), "replay": rp})
         else:
@@ -188,8 +204,9 @@ def plan(tier, seed):
     shards = []
     for rsi in range(len(RULESETS)):
         parts = 4 if tier == "quick" else 8
-        for p in range(parts):
-            shards.append({"mode": "enum", "ruleset": rsi, "depth": depth, "part": p, "parts": parts, "case_seed": seed})
+        d = depth if (tier != "quick" or rsi in (3, 7, 9, 10)) else 3
+        for p in range(parts if d > 3 else 1):
+            shards.append({"mode": "enum", "ruleset": rsi, "depth": d, "part": p, "parts": parts if d > 3 else 1, "case_seed": seed})
     shards.append({"mode": "random", "case_seed": seed, "n": 30 if tier == "quick" else 300})
     shards.append({"mode": "growth", "case_seed": seed})
     shards.append({"mode": "integration", "case_seed": seed})
